@@ -143,6 +143,10 @@ pub assume_specification<T>[ Option::<T>::or ](a: Option<T>, b: Option<T>) -> (r
 pub fn vec_take<T>(v: Vec<T>, n: usize) -> (r: Vec<T>)
     ensures r@ == v@.subrange(0, if (n as int) < v@.len() { n as int } else { v@.len() as int })
 { v.into_iter().take(n).collect() }
+/// `Result::or_else`
+pub assume_specification<T, E, F, O: FnOnce(E) -> Result<T, F>>[ Result::<T, E>::or_else ](r0: Result<T, E>, op: O) -> (r: Result<T, F>)
+    requires r0.is_err() ==> call_requires(op, (r0->Err_0,)),
+    ensures (match r0 { Ok(v) => r == Result::<T, F>::Ok(v), Err(e) => call_ensures(op, (e,), r) });
 /// `Result::unwrap_or`
 pub assume_specification<T, E>[ Result::<T, E>::unwrap_or ](r0: Result<T, E>, d: T) -> (r: T)
     ensures r == (match r0 { Ok(v) => v, Err(_) => d });
@@ -499,6 +503,12 @@ impl VxStr for str {
 
 /// `[T]::contains(&x)` / `join` for tables of string literals (code tables)
 pub open spec fn lits_contain(v: Seq<&'static str>, x: Seq<char>) -> bool { exists|k: int| 0 <= k < v.len() && (#[trigger] v[k])@ == x }
+/// `table.iter().position(|&c| c == x)`: index of the first literal equal to x
+#[verifier::external_body]
+pub fn lits_position(v: &Vec<&'static str>, x: &str) -> (r: Option<usize>)
+    ensures r.is_some() == lits_contain(v@, x@),
+            r.is_some() ==> (r.unwrap() as int) < v@.len() && v@[r.unwrap() as int]@ == x@ && forall|k: int| 0 <= k < r.unwrap() ==> (#[trigger] v@[k])@ != x@
+{ v.iter().position(|&c| c == x) }
 pub trait VxSliceStr {
     spec fn lits(&self) -> Seq<&'static str>;
     fn vx_contains(&self, x: &&str) -> (r: bool) ensures r == lits_contain(self.lits(), x@);
